@@ -836,6 +836,7 @@ def create_enum_typemap(node):
             "static_cast<{namespace_scope}{enum_name}>({{c_var}})", fmt_enum
         )
         ntypemap.cxx_to_c = "static_cast<int>({cxx_var})"
+        ntypemap.flat_name = None  # do not keep "int" from the clone
         ntypemap.compute_flat_name()
         register_type(type_name, ntypemap)
     return ntypemap
